@@ -22,7 +22,7 @@ class Explorer:
         self.timeout_ms = timeout_ms
         self.max_paths = max_paths
         self.base = []            # domain constraints of the symbolic inputs (z3 bools)
-        self.defs, self.defs_light, self._prod = [], [], {}
+        self.defs, self.defs_light, self._prod, self._divs, self.prods, self._rne = [], [], {}, {}, [], {}
         self.pc = []
         self.decisions = []
         self.prefix = []
@@ -34,6 +34,7 @@ class Explorer:
         self._s2 = None
         self._scope_path = None
         self._decided, self._keep = {}, []
+        self.quick_ms = int(os.environ.get('SX_QUICK_MS', '2000'))
 
     # ---- solver plumbing
     def reset(self, base):
@@ -44,7 +45,7 @@ class Explorer:
         for c in self.base:
             self.solver.add(c)
         self.pc, self.decisions, self.prefix, self.model = [], [], [], None
-        self.defs, self.defs_light, self._prod = [], [], {}
+        self.defs, self.defs_light, self._prod, self._divs, self.prods, self._rne = [], [], {}, {}, [], {}
 
     def product(self, a, b, lo, hi):
         """symbolic x symbolic product as a fresh variable p with the definition p == a*b kept on the side:
@@ -60,10 +61,96 @@ class Explorer:
         d = z3.And(p == a.ext(w) * b.ext(w), rng)
         r = T.mk(p, lo, hi)
         self._prod[key] = (r, a, b)
+        self.prods.append((p, a.ext(w) * b.ext(w), (a if a.w <= b.w else b)))
         self.defs.append(d)
         self.defs_light.append(rng)
         self.solver.add(rng)
         return r
+
+    def _fresh_check(self, assertions, timeout_ms):
+        self.stats['fresh_solver_queries'] = self.stats.get('fresh_solver_queries', 0) + 1
+        s = z3.SolverFor('QF_BV')
+        s.set('timeout', timeout_ms)
+        for c in assertions:
+            s.add(c)
+        r = s.check()
+        return r, (s.model() if r == z3.sat else None)
+
+    def _repair(self, m, conds):
+        """model of the light query -> same inputs, every product variable recomputed from its factors; None if a condition fails"""
+        try:
+            m = m.translate(z3.main_ctx())
+            for pv, e, _ in self.prods:
+                m.update_value(pv, m.eval(e, model_completion=True))
+            for c in conds:
+                if not z3.is_true(m.eval(c, model_completion=True)):
+                    return None
+            return m
+        except z3.Z3Exception:
+            return None
+
+    def _external_check(self, assertions, timeout_s):
+        """decide in a separate z3 process killed after timeout_s; returns (z3.sat|unsat|unknown, model or None)"""
+        import subprocess, tempfile, re, shutil
+        from z3 import z3util
+        s = z3.Solver()
+        for c in assertions:
+            s.add(c)
+        consts, seen, stack = {}, set(), list(assertions)
+        while stack:                                  # free constants of the DAG (z3util.get_vars walks it as a tree)
+            e = stack.pop()
+            i = e.get_id()
+            if i in seen:
+                continue
+            seen.add(i)
+            if z3.is_const(e):
+                if e.decl().kind() == z3.Z3_OP_UNINTERPRETED:
+                    consts[e.decl().name()] = e
+            else:
+                stack.extend(e.children())
+        txt = s.to_smt2()
+        for a in ('bvsdiv', 'bvsrem', 'bvudiv', 'bvurem', 'bvsmod'):
+            txt = txt.replace(a + '_i', a)
+        names = sorted(consts)
+        txt = '(set-logic QF_BV)\n(set-option :produce-models true)\n' + txt
+        if names:
+            txt += '\n(get-value (%s))\n' % ' '.join('|%s|' % n for n in names)
+        exe = shutil.which('z3-new') or shutil.which('z3') or '/usr/bin/z3'
+        d = tempfile.mkdtemp(prefix='sx_exact_')
+        try:
+            path = os.path.join(d, 'q.smt2')
+            open(path, 'w').write(txt)
+            try:
+                pr = subprocess.run([exe, '-T:%d' % max(1, int(timeout_s)), path], capture_output=True, text=True, timeout=timeout_s + 10)
+            except subprocess.TimeoutExpired:
+                return z3.unknown, None
+            out = pr.stdout or ''
+        finally:
+            shutil.rmtree(d, ignore_errors=True)
+        first = out.strip().split('\n', 1)[0].strip() if out.strip() else ''
+        if first == 'unsat':
+            return z3.unsat, None                 # (the get-value that follows an unsat answer prints an error line: expected)
+        if '(error' in out:
+            return z3.unknown, None
+        if first != 'sat':
+            return z3.unknown, None
+        m = z3.Model()
+        for name, val in re.findall(r'\(\|?([^\s|()]+)\|?\s+(#x[0-9a-fA-F]+|#b[01]+|true|false)\)', out):
+            v = consts.get(name)
+            if v is None:
+                continue
+            if val in ('true', 'false'):
+                m.update_value(v, z3.BoolVal(val == 'true'))
+            else:
+                n = int(val[2:], 16 if val[1] == 'x' else 2)
+                m.update_value(v, z3.BitVecVal(n, v.size()))
+        return z3.sat, m
+
+    def lemma(self, fact):
+        """a valid fact about terms already built (never an assumption): kept for every later path and verdict query of the configuration"""
+        fact = z3.simplify(fact)          # same normal form as the (simplified) branch and verdict conditions
+        self.defs_light.append(fact)
+        self.solver.add(fact)
 
     def _check(self, *extra):
         t = time.time()
@@ -71,15 +158,19 @@ class Explorer:
         try:
             for c in extra:
                 self.solver.add(c)
+            self.solver.set('timeout', min(self.timeout_ms, self.quick_ms))
             r = self.solver.check()
             m = self.solver.model() if r == z3.sat else None
+            if r == z3.unknown:
+                # the incremental (push/pop) core has no preprocessing; a fresh one-shot solver often decides at once what it cannot
+                r, m = self._fresh_check(list(self.solver.assertions()), self.timeout_ms)
         finally:
             self.solver.pop()
         self.stats['solver_s'] += time.time() - t
         self.stats['solver_queries'] += 1
         if DEBUG and time.time() - t > 1.0:
             import traceback
-            print('SLOW QUERY %.1fs' % (time.time() - t), [str(c)[:400] for c in extra], ''.join(traceback.format_stack(limit=14)[-12:-2]))
+            print('SLOW QUERY %.1fs' % (time.time() - t), [str(c)[:int(os.environ.get('SX_DEBUG_LEN', '400'))] for c in extra], ''.join(traceback.format_stack(limit=14)[-12:-2]))
         if r == z3.unknown:
             raise Undecided(self.solver.reason_unknown())
         return r == z3.sat, m
@@ -120,7 +211,10 @@ class Explorer:
         if known is not None:
             self.stats['syntactic'] += 1
             return known
-        nid = z3.simplify(z3.Not(cond)).get_id()
+        ncond = z3.simplify(z3.Not(cond))
+        nid = ncond.get_id()
+        self._keep.append(ncond)          # AST ids are recycled once a term is freed: keep both alive while their ids are keys
+        self._keep.append(cond)
         i = len(self.decisions)
         if i < len(self.prefix):
             d = self.prefix[i]
@@ -142,7 +236,6 @@ class Explorer:
         c = cond if d else z3.Not(cond)
         self._decided[cid] = d
         self._decided[nid] = not d
-        self._keep.append(cond)
         self.pc.append(c)
         self.solver.add(c)
         return d
@@ -251,16 +344,53 @@ class Explorer:
             try:
                 for c in (list(extra) if scoped else self.base + self.defs_light + list(path.pc) + list(extra)):
                     s2.add(c)
+                s2.set('timeout', min(self.timeout_ms, self.quick_ms))
                 r = s2.check()
                 m = s2.model() if r == z3.sat else None
+                if r == z3.unknown:
+                    r, m = self._fresh_check(list(s2.assertions()), self.timeout_ms)
+                s2.set('timeout', self.timeout_ms)
                 if r == z3.sat and self.defs:
-                    self.stats['exact_product_queries'] = self.stats.get('exact_product_queries', 0) + 1
-                    if exact_timeout_ms is not None:
-                        s2.set('timeout', exact_timeout_ms)
-                    for c in self.defs:
-                        s2.add(c)
-                    r = s2.check()
-                    m = s2.model() if r == z3.sat else None
+                    # the light query leaves products uninterpreted: first try to repair its model by computing every product
+                    # from its factors (pure evaluation); only if the repaired model misses a constraint ask a solver for the
+                    # exact definitions -- in a separate z3 process under a hard time limit (multiplier queries can ignore
+                    # the in-process timeout)
+                    conds = self.base + self.defs_light + list(path.pc) + list(extra)
+                    m2 = self._repair(m, conds)
+                    if m2 is not None:
+                        self.stats['models_repaired'] = self.stats.get('models_repaired', 0) + 1
+                        m = m2
+                    else:
+                        # concretise the narrower factor of every product (to its value in the light model, then to a few
+                        # constants): the definitions become multiplications by constants, which the solver handles
+                        self.stats['exact_product_queries'] = self.stats.get('exact_product_queries', 0) + 1
+                        light = m
+                        r, m = z3.unknown, None
+                        s2.set('timeout', min(exact_timeout_ms or self.timeout_ms, 10000))
+                        for attempt in ('model', 1, -1, 'hi', 'lo', 3):
+                            fix = []
+                            for pv, e, fac in self.prods:
+                                if attempt == 'model':
+                                    fix.append(fac.bv == light.eval(fac.bv, model_completion=True))
+                                else:
+                                    c = fac.hi if attempt == 'hi' else fac.lo if attempt == 'lo' else attempt
+                                    if fac.lo <= c <= fac.hi:
+                                        fix.append(fac.bv == z3.BitVecVal(c, fac.w))
+                            s2.push()
+                            try:
+                                for c in fix + list(self.defs):
+                                    s2.add(c)
+                                rr = s2.check()
+                                if rr == z3.sat:
+                                    r, m = rr, s2.model()
+                            finally:
+                                s2.pop()
+                            if r == z3.sat:
+                                break
+                        if r != z3.sat and exact_timeout_ms is None:
+                            # verdict query: last resort, the exact definitions in a separate process under a hard time limit
+                            r, m = self._external_check(conds + list(self.defs), min(self.timeout_ms / 1000.0, 20))
+                        s2.set('timeout', self.timeout_ms)
             finally:
                 s2.pop()
                 if exact_timeout_ms is not None:
